@@ -19,9 +19,13 @@ Definition c17_hb_step (S : SOps) (h : hist (list (T S))) (o : hop (list (T S)))
 Definition c17_hb_window (S : SOps) (h : hist (list (T S))) : nat := window h.
 Definition c17_hb_get (S : SOps) (h : hist (list (T S))) := hist_get h.
 
+(* move construction / assignment: (target, moved-from source) *)
+Definition c17_move (S : SOps) (st : est S) := est_move S st.
+Definition c17_hb_move (S : SOps) (h : hist (list (T S))) := hist_move h.
+
 (* spec-level value for the checks: the coded map score (C17_map_score_meaning) *)
 Definition c17_map_values (S : SOps) := map_values S.
 
 Extraction "C17_model.ml" c17_init c17_step c17_window c17_history c17_caches c17_method
   c17_hb_init c17_hb_step c17_hb_window c17_hb_get
-  c17_map_values.
+  c17_move c17_hb_move c17_map_values.
